@@ -73,6 +73,14 @@ TileConvCases ==
       TileLaw(LAMBDA i : SemConv(i[1], i[2], IF bias THEN i[3] ELSE Nil, v[3]), ins, {1}) =>
          P(CaseRec("tile", v[3], ins, SemConv(X, W, B, v[3]), <<"value", "f32", "tile_law">>) @@ [tile |-> TileField({1})])
 
+\* many output channels / input channels / samples (counts beyond the number of cores, odd counts)
+ManyKernelCases ==
+   \A m \in {3, 5, 7, 17, 33} :
+      /\ P(ConvCase("many", <<2, 1, 3, 4>>, <<m, 1, 2, 2>>, <<>>, TRUE, "f32", <<"2d", "many_kernels">>))
+      /\ P(ConvCase("many", <<1, 2, 5>>, <<m, 2, 2>>, <<AIs("pads", <<1, 0>>)>>, FALSE, "f32", <<"1d", "many_kernels">>))
+      /\ P(ConvCase("many", <<1, m, 3, 3>>, <<2, m, 2, 2>>, <<>>, FALSE, "f32", <<"2d", "many_channels">>))
+      /\ P(ConvCase("many", <<m, 1, 3, 3>>, <<2, 1, 2, 2>>, <<>>, TRUE, "f32", <<"2d", "many_samples">>))
+
 \* long images (an output count that is no multiple of a block size)
 LongConvCases ==
    /\ P(ConvCase("long", <<1, 1, 40003>>, <<1, 1, 2>>, <<>>, TRUE, "f32", <<"1d", "long">>))
@@ -84,7 +92,7 @@ Init ==
    \/ ("conv2d" \in Fams /\ st \in [fam : {"conv2d"}, H : 2..MaxHW, W : 2..MaxHW, kh : 1..MaxK2, kw : 1..MaxK2, done : {FALSE}])
 Emit ==
    /\ ~st.done
-   /\ CASE st.fam = "conv1d" -> Conv1D(st.L, st.k, st.s, st.d) /\ (st.L = 1 /\ st.k = 1 /\ st.s = 1 /\ st.d = 1 => SpecialCases /\ LongConvCases /\ TileConvCases)
+   /\ CASE st.fam = "conv1d" -> Conv1D(st.L, st.k, st.s, st.d) /\ (st.L = 1 /\ st.k = 1 /\ st.s = 1 /\ st.d = 1 => SpecialCases /\ LongConvCases /\ TileConvCases /\ ManyKernelCases)
         [] st.fam = "conv2d" -> Conv2D(st.H, st.W, st.kh, st.kw)
    /\ st' = [st EXCEPT !.done = TRUE]
 Next == Emit
